@@ -784,6 +784,186 @@ Section SwapProofs.
     eapply no_stale_entry; eauto. eapply c_get_in; eauto. congruence.
   Qed.
 
+  (* ------------------------------------------------------------------ *)
+  (* the shape of the update events in the log, and the sequential-update *)
+  (* reading of c09_after_update                                          *)
+  (* ------------------------------------------------------------------ *)
+  (* what thread u's set_policy call is doing according to the log:
+     None = not inside one, Some (q, published?) *)
+  Fixpoint ustate (u : nat) (lg : list event) : option (policy * bool) :=
+    match lg with
+    | [] => None
+    | UpStart u' q :: r => if Nat.eqb u' u then Some (q, false) else ustate u r
+    | Pub u' q :: r => if Nat.eqb u' u then Some (q, true) else ustate u r
+    | UpRet u' _ :: r => if Nat.eqb u' u then None else ustate u r
+    | _ :: r => ustate u r
+    end.
+  Fixpoint wf_log (lg : list event) : Prop :=
+    match lg with
+    | [] => True
+    | Pub u q :: r => ustate u r = Some (q, false) /\ wf_log r
+    | UpRet u q :: r => ustate u r = Some (q, true) /\ wf_log r
+    | _ :: r => wf_log r
+    end.
+  Definition upc_ok (lg : list event) (t : nat) (c : pc) : Prop :=
+    match c with
+    | UAcq q | UWPol q => ustate t lg = Some (q, false)
+    | UWTag q | UWComp q | UInc q | URel q | UClear q => ustate t lg = Some (q, true)
+    | _ => True
+    end.
+  Definition Inv2 (c : conf) : Prop :=
+    wf_log (s_log (sh c)) /\ forall t, upc_ok (s_log (sh c)) t (snd (th c t)).
+
+  Lemma inv2_init : Inv2 (init policy tag env decision tag_of compile_ok p0 progs).
+  Proof. split; simpl; auto. Qed.
+
+  Lemma inv2_step c l c' : Inv2 c -> sstep c l = Some c' -> Inv2 c'.
+  Proof.
+    intros [W U] H. destruct l as [i|[k e]].
+    2: { inversion H; subst; simpl. split; auto. }
+    pose proof (U i) as Ui.
+    step_cases H i; simpl in Ui; simpl; (split; [simpl; auto|]); intros t; simpl;
+      (destruct (Nat.eq_dec t i) as [->|Hne];
+       [rewrite upd_same; simpl; rewrite ?Nat.eqb_refl; auto
+       |rewrite (upd_other _ _ _ _ _ Hne); specialize (U t);
+        assert (Hb : Nat.eqb i t = false) by (apply Nat.eqb_neq; auto);
+        destruct (snd (th c t)); simpl in *; rewrite ?Hb; auto]).
+    all: repeat match goal with
+         | |- context [if has_cache then _ else _] => destruct has_cache
+         | |- context [match s_etag ?s with _ => _ end] => destruct (s_etag s)
+         | |- context [match c_get ?k ?e ?s with _ => _ end] => destruct (c_get k e s)
+         | |- context [match ?ok with Some k => EAcq2 _ _ k _ | None => _ end] => destruct ok
+         | |- context [if Nat.eqb ?a ?b then _ else _] => destruct (Nat.eqb a b)
+         end; simpl; auto.
+  Qed.
+
+  Lemma inv2_reachable c : reach c -> Inv2 c.
+  Proof.
+    unfold Swap.sreach. apply invariant_reachable.
+    - apply inv2_init.
+    - intros; eapply inv2_step; eauto.
+  Qed.
+
+  Lemma ustate_inflight u : forall lg x, wf_log lg -> ustate u lg = Some x -> In u (inflight lg).
+  Proof.
+    induction lg as [|ev r IH]; simpl; intros x W H; [discriminate|].
+    destruct ev; simpl in *; eauto.
+    - destruct (Nat.eqb u0 u) eqn:E.
+      + apply Nat.eqb_eq in E. subst. left; auto.
+      + right. eauto.
+    - destruct W as [W1 W2]. destruct (Nat.eqb u0 u) eqn:E.
+      + apply Nat.eqb_eq in E. subst. eauto.
+      + eauto.
+    - destruct W as [W1 W2]. destruct (Nat.eqb u0 u) eqn:E; [discriminate|].
+      apply in_remove_other; eauto. apply Nat.eqb_neq in E. auto.
+  Qed.
+  Lemma quiescent_ustate lg u : wf_log lg -> quiescent lg = true -> ustate u lg = None.
+  Proof.
+    intros W Q. destruct (ustate u lg) as [x|] eqn:E; auto.
+    pose proof (ustate_inflight _ _ _ W E) as I. unfold Swap.quiescent in Q.
+    destruct (inflight lg); [destruct I | discriminate].
+  Qed.
+  Lemma wf_log_app l : forall r, wf_log (l ++ r) -> wf_log r.
+  Proof. induction l as [|ev l IH]; simpl; auto. intros r W. destruct ev; try tauto; apply IH; tauto. Qed.
+
+  (* while only thread u is inside set_policy and no set_policy starts, the current
+     policy is what u has published, if it has *)
+  Lemma solo_update u q0 R : 
+    (forall u', u' <> u -> ustate u' R = None) -> ustate u R = Some (q0, false) ->
+    forall l, wf_log (l ++ R) -> no_upstart l = true ->
+      (forall u', u' <> u -> ustate u' (l ++ R) = None) /\
+      match ustate u (l ++ R) with
+      | Some (q, true) => cur (l ++ R) = q
+      | Some (q, false) => q = q0 /\ cur (l ++ R) = cur R
+      | None => True
+      end.
+  Proof.
+    intros HO HU. induction l as [|ev l IH]; simpl; intros W N.
+    - split; auto. rewrite HU. auto.
+    - apply andb_prop in N. destruct N as [N1 N2].
+      assert (W' : wf_log (l ++ R)) by (destruct ev; simpl in W; tauto).
+      destruct (IH W' N2) as [IO IU]. clear IH.
+      destruct ev; simpl in *; try discriminate; auto.
+      + (* Pub *) destruct W as [W1 _].
+        destruct (Nat.eq_dec u0 u) as [->|Hne].
+        * rewrite Nat.eqb_refl. rewrite W1 in IU. split; auto.
+          intros u' Hu. assert (Hb : Nat.eqb u u' = false) by (apply Nat.eqb_neq; auto). rewrite Hb. auto.
+        * rewrite (IO _ Hne) in W1. discriminate.
+      + (* UpRet *) destruct W as [W1 _].
+        destruct (Nat.eq_dec u0 u) as [->|Hne].
+        * rewrite Nat.eqb_refl. split; auto.
+          intros u' Hu. assert (Hb : Nat.eqb u u' = false) by (apply Nat.eqb_neq; auto). rewrite Hb. auto.
+        * rewrite (IO _ Hne) in W1. discriminate.
+  Qed.
+
+  (* while nobody is inside set_policy and no set_policy starts, nothing is published *)
+  Lemma idle_segment X : (forall u, ustate u X = None) ->
+    forall l, wf_log (l ++ X) -> no_upstart l = true ->
+      (forall u, ustate u (l ++ X) = None) /\ cur (l ++ X) = cur X.
+  Proof.
+    intros HX. induction l as [|ev l IH]; simpl; intros W N; auto.
+    apply andb_prop in N. destruct N as [N1 N2].
+    assert (W' : wf_log (l ++ X)) by (destruct ev; simpl in W; tauto).
+    destruct (IH W' N2) as [IO IC]. clear IH.
+    destruct ev; simpl in *; try discriminate; auto.
+    - destruct W as [W1 _]. rewrite IO in W1. discriminate.
+    - destruct W as [W1 _]. rewrite IO in W1. discriminate.
+  Qed.
+
+  Lemma inflight_no_upstart r : forall l, no_upstart l = true -> incl (inflight (l ++ r)) (inflight r).
+  Proof.
+    induction l as [|ev l IH]; simpl; intros N; [apply incl_refl|].
+    apply andb_prop in N. destruct N as [N1 N2]. specialize (IH N2).
+    destruct ev; simpl in *; try discriminate; auto.
+    intros x Hx. apply in_remove in Hx. apply IH. tauto.
+  Qed.
+  Lemma remove_all_same (u : nat) : forall X, incl X [u] -> remove Nat.eq_dec u X = [].
+  Proof.
+    induction X as [|x X IH]; simpl; intros I; auto.
+    destruct (Nat.eq_dec u x) as [E|E].
+    - apply IH. intros y Hy. apply I. right; auto.
+    - exfalso. destruct (I x (or_introl eq_refl)) as [H|[]]. congruence.
+  Qed.
+
+  (* the prose of C09: set_policy(p) of thread u ran with no other replacement in
+     flight or starting (quiescent l0, no UpStart in lu), has returned (UpRet u p),
+     no replacement started since (l1', l2): an evaluation started afterwards
+     returns p's decision. *)
+  Theorem after_update_seq c : reach c ->
+    forall l3 t e d l2 e' l1' u p lu l0,
+      s_log (sh c) = l3 ++ EvRet t e d :: l2 ++ EvStart t e' :: l1' ++ UpRet u p :: lu ++ UpStart u p :: l0 ->
+      no_start t l2 = true -> no_upstart l2 = true -> no_upstart l1' = true -> no_upstart lu = true ->
+      quiescent l0 = true ->
+      d = decide p e.
+  Proof.
+    intros R l3 t e d l2 e' l1' u p lu l0 E N U2 U1 Uu Q0.
+    destruct (inv2_reachable _ R) as [W _]. rewrite E in W.
+    apply wf_log_app in W. simpl in W. apply wf_log_app in W. simpl in W.
+    pose proof (wf_log_app _ _ W) as WX. simpl in WX. destruct WX as [WU WR].
+    pose proof (wf_log_app _ _ WR) as W0. simpl in W0.
+    set (Rr := UpStart u p :: l0) in *.
+    assert (HO : forall u', u' <> u -> ustate u' Rr = None).
+    { intros u' Hu. unfold Rr. simpl. assert (Hb : Nat.eqb u u' = false) by (apply Nat.eqb_neq; auto).
+      rewrite Hb. apply quiescent_ustate; auto. }
+    assert (HU : ustate u Rr = Some (p, false)) by (unfold Rr; simpl; rewrite Nat.eqb_refl; auto).
+    destruct (solo_update u p Rr HO HU lu WR Uu) as [SO SU]. rewrite WU in SU.
+    set (X := UpRet u p :: lu ++ Rr) in *.
+    assert (HX : forall u', ustate u' X = None).
+    { intros u'. unfold X. simpl. destruct (Nat.eqb u u') eqn:Eb; auto. apply SO.
+      apply Nat.eqb_neq in Eb. auto. }
+    destruct (idle_segment X HX l1' W U1) as [_ IC].
+    assert (C : cur (l1' ++ X) = p) by (rewrite IC; unfold X; simpl; exact SU).
+    rewrite <- C. eapply after_update_always; eauto.
+    (* quiescent *)
+    unfold Swap.quiescent.
+    assert (I1 : incl (inflight (l1' ++ X)) (inflight X)) by (apply inflight_no_upstart; auto).
+    assert (I2 : inflight X = []).
+    { unfold X. simpl. apply remove_all_same.
+      pose proof (inflight_no_upstart Rr lu Uu) as I3. unfold Rr in I3 at 2. simpl in I3.
+      unfold Swap.quiescent in Q0. destruct (inflight l0); [exact I3 | discriminate]. }
+    rewrite I2 in I1. destruct (inflight (l1' ++ X)) as [|y ys]; auto. destruct (I1 y (or_introl eq_refl)).
+  Qed.
+
   (* the log is ghost: replacing it does not change what a step does to the rest *)
   Definition with_log (s : shared) (lg : list event) : shared :=
     mkS (s_policy s) (s_etag s) (s_comp s) (s_ver s) (s_lock s) (s_cache s) lg.
